@@ -1,6 +1,7 @@
 /-
   C13 — I/O failures are propagated; truncation is a parse error.
 -/
+import MediaSan.Lemmas.WebpMapped
 import MediaSan.Lemmas.EofMapped
 import MediaSan.Webp.Sanitize
 namespace MediaSan.Props.C13
@@ -79,6 +80,28 @@ theorem C13_memory_mp4 (s : Stream) (kind : SkipKind) (cfg : Mp4.Config) (k : Io
   have E := fun pos n => C13_ideal_errors s kind pos n
   refine run_io_of_mapped (idealOps s kind) (fun k => kind = .seekable ∧ (k = .invalidInput ∨ k = .invalidData))
     ?_ ?_ ?_ ?_ ?_ ?_ _ (Mp4.sanitizeP_mapped cfg _) 0 k hrun
+  · intro st e ⟨x, hx, _⟩; exact absurd hx ((E st 0).2.2.1 e)
+  · intro st e hx; exact absurd hx ((E st 0).2.2.2.1 e)
+  · intro st e hx; exact absurd hx ((E st 0).2.2.2.2.1 e)
+  · intro st n e hx; left; exact (E st n).1 e hx
+  · intro st n e hx
+    rcases (E st n).2.1 e hx with ⟨_, he⟩ | ⟨hk, _, he⟩
+    · left; exact he
+    · right; exact ⟨hk, he⟩
+  · intro st n e hx; exact absurd hx ((E st n).2.2.2.2.2 e)
+
+/-- On fault-free in-memory inputs the WebP sanitizer never returns `Error::Io` either, except — on seek-based readers
+    only — InvalidInput/InvalidData for a skip whose target leaves u64: every `read_exact` / `skip` of the WebP
+    program is a `map_eof` site (`Webp.sanitizeP_mapped`, structural), so a short file is a Parse error, never Io. -/
+theorem C13_memory_webp (s : Stream) (kind : SkipKind) (cfg : Webp.Config) (k : IoKind)
+    (h : Webp.sanitize s kind cfg = .ioErr k) :
+    kind = .seekable ∧ (k = .invalidInput ∨ k = .invalidData) := by
+  have hrun : (Webp.sanitizeP cfg (s.len / 8 + 2)).run (idealOps s kind) 0 = .ioErr k := by
+    simp only [Webp.sanitize, Webp.sanitizeWith] at h
+    split at h <;> simp_all
+  have E := fun pos n => C13_ideal_errors s kind pos n
+  refine run_io_of_mapped (idealOps s kind) (fun k => kind = .seekable ∧ (k = .invalidInput ∨ k = .invalidData))
+    ?_ ?_ ?_ ?_ ?_ ?_ _ (Webp.sanitizeP_mapped cfg _) 0 k hrun
   · intro st e ⟨x, hx, _⟩; exact absurd hx ((E st 0).2.2.1 e)
   · intro st e hx; exact absurd hx ((E st 0).2.2.2.1 e)
   · intro st e hx; exact absurd hx ((E st 0).2.2.2.2.1 e)
